@@ -42,7 +42,7 @@ type jcase struct {
 
 var run *hx.Run
 
-// set when process failed to quiesce once: the remaining generated cases are skipped (each would wait 5 s)
+// set when process failed to quiesce once: the remaining generated cases are skipped (each would wait 20 s)
 var hungOnce bool
 
 // ---------------------------------------------------------------- notifiers
